@@ -397,6 +397,234 @@ def process(ctx, hbin, cases, stats, samples):
                             "T": h["T"], "new": h["new"], "model": m and m["raw"], "override": bool(c.get("_iso"))})
 
 
+# ------------------------------------------------------------------ mps_ftouchnwt bit for bit (Flocq binary64 model)
+import struct
+TWO = Fraction(2)
+SUBN = TWO ** -1022
+DBLMAX = float.fromhex("0x1.fffffffffffffp+1023")
+FT_KNOWN_SUBNORMAL = "touch-exact:f:subnormal-distance:true-for-separated-discs"
+
+
+def fbits(x):
+    if x != x: return "7ff8000000000000"
+    return "%016x" % struct.unpack("<Q", struct.pack("<d", x))[0]
+
+
+def bitsf(h):
+    return struct.unpack("<d", struct.pack("<Q", int(h, 16)))[0]
+
+
+def step(x, k):
+    """k ulps away from a finite double x (through its bit pattern; sign kept, clamps at 0 and at DBL_MAX)"""
+    if x != x or x in (math.inf, -math.inf): return x
+    u = struct.unpack("<q", struct.pack("<d", abs(x)))[0] + k
+    u = max(0, min(u, 0x7fefffffffffffff))
+    y = struct.unpack("<d", struct.pack("<q", u))[0]
+    return -y if math.copysign(1.0, x) < 0 else y
+
+
+def fin(x):
+    return x == x and x not in (math.inf, -math.inf)
+
+
+def fsqrt_frac(q, bits=160):
+    """rational approximation of sqrt(q) with relative error < 2^-(bits-2)"""
+    if q == 0: return Fraction(0)
+    sh = bits - (q.numerator.bit_length() - q.denominator.bit_length()) // 2
+    v = (q.numerator << (2 * sh)) // q.denominator if sh >= 0 else q.numerator // (q.denominator << (-2 * sh))
+    return Fraction(math.isqrt(v)) * TWO ** (-sh)
+
+
+def rnd_mant(rng):
+    return (rng.getrandbits(52) | (1 << 52)) / float(1 << 52)           # in [1, 2)
+
+
+def ft_n(rng):
+    return rng.choice([1, 1, 2, 2, 3, 4, 6, 10, 14, 20, 40, 200, 400, 2 * rng.randint(1, 300), rng.randint(1, 1000)])
+
+
+def ft_pair_at(rng, n, dx, dy, k, base="rand"):
+    """two discs whose exact scaled radii sum is (1 + k u) times the exact distance of the generated centres"""
+    sc = max(abs(dx), abs(dy))
+    if base == "zero" or sc == 0 or not fin(sc):
+        xj = yj = 0.0
+    else:
+        xj = rng.uniform(-4, 4) * sc * rng.choice([0, 1, 1, 8]); yj = rng.uniform(-4, 4) * sc * rng.choice([0, 1, 1, 8])
+    xi = xj + dx; yi = yj + dy
+    if not (fin(xi) and fin(yi)): xi, yi, xj, yj = dx, dy, 0.0, 0.0
+    ex = Fraction(xi) - Fraction(xj); ey = Fraction(yi) - Fraction(yj)
+    D = fsqrt_frac(ex * ex + ey * ey)
+    S = D * (1 + Fraction(k) * U) / n
+    f = Fraction(rng.choice([0, 1, 1, 2, 3, 5, 7, 8]), 8)
+    try:
+        ri = float(S * f); rj = float(S - Fraction(ri))
+    except OverflowError:
+        ri = rj = DBLMAX
+    if rj < 0: rj = 0.0
+    return (n, ri, rj, xi, yi, xj, yj)
+
+
+def ft_cases(ctx, total):
+    """(generator, (n, ri, rj, xi, yi, xj, yj)) aimed at the case splits of the proofs of coq/Cluster/Ftouch*.v"""
+    rng = ctx.rng
+    out = []
+    KS = [8.5, 9, 10, 12, 16, 40, 1000, 1 << 30, -8.5, -9, -10, -12, -16, -40, -1000, -(1 << 30), 0, 1, -1, 4, -4, 7, -7]
+    def direction(e):
+        a = rnd_mant(rng) * rng.choice([1, -1])
+        kind = rng.choice(["gt", "lt", "eq", "im0", "re0", "tinyq", "sqrtq", "near"])
+        b = {"gt": a * rng.uniform(-1, 1), "lt": a, "eq": a * rng.choice([1, -1]), "im0": 0.0, "re0": a,
+             "tinyq": a * 2.0 ** -rng.randint(1000, 1074), "sqrtq": a * 2.0 ** -rng.randint(500, 560),
+             "near": step(a, rng.randint(-3, 3))}[kind]
+        if kind in ("lt", "re0"): a = 0.0 if kind == "re0" else a * rng.uniform(-1, 1)
+        if kind in ("tinyq", "sqrtq") and rng.random() < 0.5: a, b = b, a
+        try: return math.ldexp(a, e), math.ldexp(b, e), kind
+        except OverflowError: return math.ldexp(a, 1000), math.ldexp(b, 1000), kind
+    # 1. the 8u boundary at all scales
+    while len(out) < total * 45 // 100:
+        e = rng.choice([rng.randint(-1021, 1021), rng.randint(-1021, 1021), rng.randint(-60, 60), rng.randint(1000, 1022),
+                        rng.randint(-1021, -960)])
+        dx, dy, kind = direction(e)
+        if kind in ("tinyq", "sqrtq") and e < 60: e = rng.randint(60, 1020); dx, dy, kind = direction(e)
+        out.append(("boundary-" + kind, ft_pair_at(rng, ft_n(rng), dx, dy, rng.choice(KS), rng.choice(["rand", "zero"]))))
+    # 2. guard DBL_MAX / (2 n) +- ulps (python's float division is the same binary64 operation)
+    while len(out) < total * 57 // 100:
+        n = ft_n(rng); t = DBLMAX / (2 * n)
+        ra = step(t, rng.choice([-3, -2, -1, -1, 0, 0, 1, 2]))
+        rb = rng.choice([0.0, ra, step(t, -1), step(t, -2), t / 2, 1.0, t])
+        if rng.random() < 0.5: ra, rb = rb, ra
+        far = rng.choice([0.0, 1.0, DBLMAX, DBLMAX / 2, -DBLMAX, t, 2 * t if fin(2 * t) else t])
+        out.append(("guard", (n, ra, rb, far, rng.choice([0.0, far, -far]), rng.choice([0.0, -far, 1.0]), rng.choice([0.0, far, 3.0]))))
+    # 3. overflowing difference / modulus
+    while len(out) < total * 65 // 100:
+        n = ft_n(rng); t = DBLMAX / (2 * n)
+        a = DBLMAX * rng.choice([1, 0.75, 0.5, 0.9999999]); b = rng.choice([a, a / 2, 1.0, 0.0, a * 0.70710678, step(a, -1)])
+        r = rng.choice([step(t, -1), step(t, -1), t / 2, t / 4, 1.0, 0.0])
+        k = rng.random()
+        if k < 0.35: c = (n, r, r, a, b, -a, -b)                      # both differences overflow: inf / inf = NaN
+        elif k < 0.6: c = (n, r, r, a, 0.0, -a, rng.choice([0.0, 1.0, b]))       # one overflows: modulus +inf
+        elif k < 0.85: c = (n, r, step(r, -rng.randint(0, 4)), a, b, 0.0, 0.0)    # finite difference, modulus may overflow
+        else: c = (n, r, r, a / 2, a / 2, -a / 2, -a / 2)              # |dx| = |dy| = max: product overflows
+        out.append(("overflow", c))
+    # 4. subnormal distances (the case C07_ftouch_b64_separated excludes) and tiny radii
+    out.append(("subnormal", (1, 5e-324, 0.0, 5e-324, 5e-324, 0.0, 0.0)))       # the witness of C07_ftouch_subnormal_refuted
+    while len(out) < total * 77 // 100:
+        q = 2.0 ** -1074
+        m1 = rng.choice([0, 1, 1, 2, 3, rng.randint(0, 50), rng.getrandbits(rng.randint(1, 52))]) * rng.choice([1, -1])
+        m2 = rng.choice([0, 1, 1, 2, 3, rng.randint(0, 50), rng.getrandbits(rng.randint(1, 52))]) * rng.choice([1, -1])
+        n = rng.choice([1, 1, 2, 3, ft_n(rng)])
+        if rng.random() < 0.5:
+            c = ft_pair_at(rng, n, m1 * q, m2 * q, rng.choice(KS), "zero")
+        else:
+            c = (n, rng.choice([0, 1, 2, 3, abs(m1)]) * q, rng.choice([0, 0, 1, abs(m2)]) * q, m1 * q, m2 * q, 0.0, 0.0)
+        out.append(("subnormal", c))
+    # 5. cplx_mod branches with signed zeros, equal moduli, exact cases
+    while len(out) < total * 85 // 100:
+        vals = [0.0, -0.0, 1.0, -1.0, 3.0, 4.0, -4.0, 0.5, 1e-300, 1e300, 5e-324, 2.2250738585072014e-308, step(1.0, 1), step(1.0, -1)]
+        xi, yi, xj, yj = (rng.choice(vals) for _ in range(4))
+        n = rng.choice([1, 2, 3]); r = rng.choice([0.0, 0.5, 1.0, 2.0, 2.5, 1e300, 5e-324])
+        out.append(("branches", (n, r, rng.choice([0.0, r, 1.0]), xi, yi, xj, yj)))
+    # 6. infinities and NaN in the inputs, negative radii (no predicate: correspondence only)
+    while len(out) < total * 90 // 100:
+        sp = [math.inf, -math.inf, math.nan, 0.0, 1.0, -1.0, DBLMAX, -2.0]
+        c = [rng.choice(sp) if rng.random() < 0.4 else rng.uniform(-3, 3) for _ in range(6)]
+        out.append(("inf-nan", (ft_n(rng), c[0], c[1], c[2], c[3], c[4], c[5])))
+    # 7. random values of mixed scales and random bit patterns
+    while len(out) < total:
+        if rng.random() < 0.3:
+            c = [bitsf("%016x" % rng.getrandbits(64)) for _ in range(6)]
+            out.append(("random-bits", (ft_n(rng), abs(c[0]), abs(c[1]), c[2], c[3], c[4], c[5])))
+        else:
+            e = rng.randint(-300, 300)
+            c = [math.ldexp(rng.uniform(-2, 2), e + rng.randint(-3, 3)) for _ in range(6)]
+            out.append(("random", (ft_n(rng), abs(c[0]) / 8, abs(c[1]) / 8, c[2], c[3], c[4], c[5])))
+    return out
+
+
+def ft_exact(c):
+    """the property's predicate for mps_ftouchnwt on one input, exact arithmetic.
+    returns (class, must_true, must_false): class in overlap / separated / margin / guard / subnormal-separated / no-claim"""
+    n, ri, rj, xi, yi, xj, yj = c
+    if not all(fin(v) for v in c[1:]) or ri < 0 or rj < 0 or n < 1:
+        return ("no-claim", False, False)
+    t = DBLMAX / (2 * n)
+    dx = Fraction(xi) - Fraction(xj); dy = Fraction(yi) - Fraction(yj)
+    d2 = dx * dx + dy * dy
+    L = n * (Fraction(ri) + Fraction(rj)); l2 = L * L
+    m2 = (1 + MARGIN) ** 2
+    if l2 >= d2 * m2:
+        return ("overlap", True, False)                    # C07_ftouch_b64_overlap: every finite input
+    if ri >= t or rj >= t:
+        return ("guard", True, False)                      # radius treated as infinite: C07_ftouch_b64_guard (the code's design)
+    if l2 * m2 < d2:
+        if max(abs(dx), abs(dy)) >= SUBN:
+            return ("separated", False, True)              # C07_ftouch_b64_separated
+        return ("subnormal-separated", False, False)       # C07_ftouch_subnormal_refuted: no claim, counted
+    return ("margin", False, False)
+
+
+def ftouch_phase(ctx, stats, only=None):
+    hb = ctx.compile_harness(["c07_ftouch.c"], "c07_ftouch", mode=HARNESS_MODE)
+    ctx.model_bin("ftouch")
+    cases = only if only is not None else ft_cases(ctx, ctx.pick(6000, 150000))
+    lines = ["f%d %d %s" % (k, c[0], " ".join(fbits(v) for v in c[1:])) for k, (g, c) in enumerate(cases)]
+    text = "\n".join(lines) + "\n"
+    rc, o, e = vf.sh([hb], input=text, timeout=900, env=ctx.san_env())
+    hout = {ln.split(" ")[0]: ln for ln in o.splitlines()}
+    mout = {ln.split(" ")[0]: ln for ln in ctx.run_model_lines("ftouch", lines, workers=4)}
+    ft = stats.setdefault("ftouch", {"evaluations": 0, "by_generator": {}, "by_class": {}, "answers": {"true": 0, "false": 0},
+                                     "mod_branch": {}, "nan_or_inf_modulus": 0, "subnormal_separated_true": 0,
+                                     "asymmetric": 0, "samples": []})
+    if rc != 0:
+        kind = "asan" if rc == 97 else "ubsan" if rc == 98 else "rc=%d" % rc
+        k = len(hout)
+        ctx.violation("sanitizer:%s:mps_ftouchnwt:%s" % (kind, cases[min(k, len(cases) - 1)][0]),
+                      "harness c07_ftouch stopped (%s) at input %d: %s" % (kind, k, (e or "")[-400:]),
+                      {"ftouch": True, "case": list(map(fbits, cases[min(k, len(cases) - 1)][1][1:])), "n": cases[min(k, len(cases) - 1)][1][0]})
+    for k, (g, c) in enumerate(cases):
+        hid = "f%d" % k
+        h = hout.get(hid); m = mout.get(hid)
+        if h is None: continue
+        ft["evaluations"] += 1
+        ft["by_generator"][g] = ft["by_generator"].get(g, 0) + 1
+        cls, must_t, must_f = ft_exact(c)
+        ft["by_class"][cls] = ft["by_class"].get(cls, 0) + 1
+        hf = dict(x.split("=") for x in h.split(" ")[1:])
+        t01 = hf["t"][0] == "1"; t10 = hf["t"][1] == "1"
+        ft["answers"]["true" if t01 else "false"] += 1
+        if hf["mod"] in ("7ff8000000000000", "7ff0000000000000"): ft["nan_or_inf_modulus"] += 1
+        dxf = c[3] - c[5]; dyf = c[4] - c[6]
+        br = "nan" if (dxf != dxf or dyf != dyf) else "re>im" if abs(dxf) > abs(dyf) else "im==0" if dyf == 0 else "re<=im"
+        ft["mod_branch"][br] = ft["mod_branch"].get(br, 0) + 1
+        replay = {"ftouch": True, "gen": g, "n": c[0], "bits": [fbits(v) for v in c[1:]], "values": [repr(v) for v in c[1:]],
+                  "class": cls, "implementation": h, "model": m}
+        bad = False
+        if t01 != t10:
+            ft["asymmetric"] += 1
+            if cls != "no-claim":
+                bad = True
+                ctx.violation("touch-asymmetric:f:%s" % g, "mps_ftouchnwt(i,j) = %s but (j,i) = %s on finite input %s" % (t01, t10, replay["values"]), replay)
+        for t in (t01, t10):
+            if must_t and not t:
+                bad = True
+                ctx.violation("touch-exact:f:%s:false-for-overlapping-discs" % g,
+                              "mps_ftouchnwt answers false although n(ri+rj) >= |zi-zj|(1+8u) exactly (%s): %s" % (cls, replay["values"]), replay)
+            if must_f and t:
+                bad = True
+                ctx.violation("touch-exact:f:%s:true-for-separated-discs" % g,
+                              "mps_ftouchnwt answers true although n(ri+rj)(1+8u) < |zi-zj| exactly, radii below the guard, a distance component >= 2^-1022: %s"
+                              % replay["values"], replay)
+        if cls == "subnormal-separated" and (t01 or t10):
+            ft["subnormal_separated_true"] += 1
+            ctx.violation(FT_KNOWN_SUBNORMAL, "mps_ftouchnwt answers true for discs separated by more than the 8u margin when both components of "
+                          "z_i - z_j are subnormal: %s" % replay["values"], replay)
+        if m != h and not bad:
+            ctx.violation("correspondence:ftouch:%s" % g, "binary64 model (bin/ftouch) and mps_ftouchnwt/cplx_mod differ: model `%s` implementation `%s`"
+                          % (m, h), replay, no_input=True)
+        if len(ft["samples"]) < 5 and cls in ("overlap", "separated") and g.startswith("boundary"):
+            ft["samples"].append({"gen": g, "n": c[0], "values": replay["values"], "class": cls, "implementation": h})
+    return ft
+
+
 # ------------------------------------------------------------------ mps_mcluster under the deterministic scheduler
 def shim_run(ctx, hs, c, args):
     """run one case under the schedules selected by args; returns (header, runs) with runs = list of
@@ -539,7 +767,21 @@ def exhaustive_model(ctx, nmax, stats):
     stats["exhaustive_nmax"] = nmax
 
 
+def merge_known(ctx):
+    """known/C07.json is this property's fragment of known_findings.json (merged by lib/mkmanifest.py); entries not merged yet
+    are honoured all the same so that the check is quiet between two runs of the integrator"""
+    try:
+        frag = json.load(open(os.path.join(vf.VERIF, "known", "C07.json"))).get("findings", [])
+    except Exception:
+        frag = []
+    have = {k.get("signature") or k.get("signature_regex") for k in ctx.known}
+    for f in frag:
+        if f.get("property") == "C07" and f.get("status", "open") == "open" and (f.get("signature") or f.get("signature_regex")) not in have:
+            ctx.known.append(f)
+
+
 def run(ctx):
+    merge_known(ctx)
     ctx.prove()
     hbin = ctx.compile_harness(["c07_cluster.c"], "c07_cluster", mode=HARNESS_MODE)
     ctx.model_bin("cluster")
@@ -551,6 +793,8 @@ def run(ctx):
         c = {k: ([tuple(t) for t in v] if k in ("X", "Y", "G", "W") else v) for k, v in c.items()}
         if c.get("shim"):
             shim_phase(ctx, stats)
+        elif c.get("ftouch"):
+            ftouch_phase(ctx, stats, only=[(c.get("gen", "replay"), tuple([c["n"]] + [bitsf(b) for b in c["bits"]]))])
         elif "variant" in c:
             c["id"] = "c0"
             process(ctx, hbin, [c], stats, samples)
@@ -560,6 +804,7 @@ def run(ctx):
         for k in range(0, len(cases), 3000):
             process(ctx, hbin, cases[k:k + 3000], stats, samples)
         exhaustive_model(ctx, ctx.pick(4, 5), stats)
+        ftouch_phase(ctx, stats)
         shim_phase(ctx, stats)
 
     def search():
@@ -589,6 +834,7 @@ def run(ctx):
         "exhaustive_model_cases": stats.get("exhaustive_model_cases", 0), "exhaustive_nmax": stats.get("exhaustive_nmax", 0),
         "harness_mode": HARNESS_MODE,
         "scheduler_shim": stats.get("shim", {}),
+        "ftouch_binary64": stats.get("ftouch", {}),
         "trusted_base": [
             "Coq 8.16.1 kernel; cluster theorems closed under the global context; touch theorems use the stdlib real-number axioms listed in axioms_used",
             "extraction (ExtrOcamlBasic, ExtrOcamlNativeString only) + ocaml/cluster_driver.ml (touch matrix passed as an OCaml closure over the exported string)",
